@@ -436,3 +436,81 @@ def nonsep(rep, pid, tier):
             rep.violation("afb2d_nonsep / sfb2d_nonsep differ from afb2d / sfb2d on a LARGE image by %.3g at %s" % (err, cfg),
                           {"api": "afb2d_nonsep", "check": "scale", "cfg": cfg})
     rep.count("large_input_comparisons", n)
+
+
+def batch_split(rep, pid, tier, dtype=torch.float64, which=("dwt", "dtcwt", "swt", "scat")):
+    """Batches beyond every size threshold (more than 2^20 elements; many items): item n of the result of ONE call on the whole
+    batch - values and the back-propagated input-gradient - is what the same module returns for item n alone, up to rounding.  A
+    code path that exists only for big inputs (chunked processing, reduced-precision storage of what the backward needs, another
+    algorithm above a threshold) is exercised here and nowhere in the small-size layers."""
+    from pytorch_wavelets.dwt.transform2d import SWTForward
+    torch.set_default_dtype(dtype)
+    rng = np.random.default_rng(69000 + seed())
+    eps = float(torch.finfo(dtype).eps)
+    cases = []
+    if "dwt" in which:
+        cases += [("DWT1DForward(db4,periodization,J=2)", lambda: pw.DWT1DForward(J=2, wave="db4", mode="periodization"), (5, 1, 2 ** 18)),
+                  ("DWT1DForward(db2,zero,J=1)", lambda: pw.DWT1DForward(J=1, wave="db2", mode="zero"), (7, 3, 2 ** 16)),
+                  ("DWTForward(db3,periodization,J=2)", lambda: pw.DWTForward(J=2, wave="db3", mode="periodization"), (3, 1, 512, 1024)),
+                  ("DWTForward(bior2.2,symmetric,J=1)", lambda: pw.DWTForward(J=1, wave="bior2.2", mode="symmetric"), (5, 2, 256, 512))]
+    if "swt" in which:
+        cases += [("SWTForward(db2,J=2)", lambda: SWTForward(J=2, wave="db2"), (3, 1, 512, 768))]
+    if "dtcwt" in which:
+        cases += [("DTCWTForward(J=2)", lambda: pw.DTCWTForward(J=2), (3, 1, 512, 768)),
+                  ("DTCWTForward(near_sym_b,qshift_b,J=3)", lambda: pw.DTCWTForward(biort="near_sym_b", qshift="qshift_b", J=3), (17, 3, 64, 48))]
+    if "scat" in which:
+        cases += [("ScatLayer(magbias=1e-2)", lambda: pw.ScatLayer(magbias=1e-2), (16, 3, 32, 32)),
+                  ("ScatLayer(near_sym_b_bp,magbias=0.1)", lambda: pw.ScatLayer(biort="near_sym_b_bp", magbias=0.1), (3, 1, 384, 512)),
+                  ("ScatLayerj2(magbias=1e-2)", lambda: pw.ScatLayerj2(magbias=1e-2), (9, 2, 64, 64))]
+    if tier == "quick":       # the three heaviest (one big item per batch entry) are left to the thorough tier
+        cases = [c for c in cases if c[0] not in ("SWTForward(db2,J=2)", "DTCWTForward(J=2)", "ScatLayer(near_sym_b_bp,magbias=0.1)")]
+
+    def flat(o):
+        out = []
+
+        def rec(t):
+            if isinstance(t, torch.Tensor):
+                if t.dim() > 0 and t.numel() > 0:
+                    out.append(t)
+            elif isinstance(t, (list, tuple)):
+                for q in t:
+                    rec(q)
+        rec(o)
+        return out
+    n = 0
+    try:
+        for name, make, shape in cases:
+            mod = make()
+            x = torch.tensor(rng.standard_normal(shape), dtype=dtype, requires_grad=True)
+            outs = flat(mod(x))
+            g = torch.Generator().manual_seed(n + 1)
+            cots = [(2 * torch.rand(o.shape, generator=g, dtype=torch.float64) - 1).to(dtype) for o in outs]
+            gx, = torch.autograd.grad(outs, x, cots)
+            cfg = dict(module=name, shape=list(shape), dtype=str(dtype))
+            bad = None
+            for k in sorted({0, shape[0] // 2, shape[0] - 1}):
+                xk = x[k:k + 1].detach().clone().requires_grad_(True)
+                ok_ = flat(mod(xk))
+                gk, = torch.autograd.grad(ok_, xk, [c[k:k + 1] for c in cots])
+                for a, b_ in zip(outs, ok_):
+                    sc = float(b_.detach().abs().max()) + 1.0
+                    if tuple(a[k:k + 1].shape) != tuple(b_.shape) or float((a[k:k + 1].detach() - b_.detach()).abs().max()) > 64 * eps * sc:
+                        bad = "item %d of the result differs from the result for that item alone by %.3g (allowed %.3g)" % (
+                            k, float((a[k:k + 1].detach() - b_.detach()).abs().max()) if tuple(a[k:k + 1].shape) == tuple(b_.shape) else float("nan"), 64 * eps * sc)
+                        break
+                if bad:
+                    break
+                sc = float(gk.abs().max()) + 1.0
+                if float((gx[k:k + 1] - gk).abs().max()) > 256 * eps * sc:
+                    bad = "item %d of the input-gradient differs from the gradient for that item alone by %.3g (allowed %.3g)" % (
+                        k, float((gx[k:k + 1] - gk).abs().max()), 256 * eps * sc)
+                    break
+            rep.validated()
+            rep.nontriv(("batch_split", name, tuple(shape), str(dtype)))
+            n += 1
+            if bad:
+                rep.violation("%s on a batch of shape %s (%s): %s" % (name, list(shape), str(dtype).replace("torch.", ""), bad),
+                              {"api": name, "check": "batch_split", "cfg": cfg})
+    finally:
+        torch.set_default_dtype(torch.float64 if pid != "C16" else torch.float32)
+    rep.count("batch_split_cases", n)
